@@ -109,3 +109,90 @@ def is_phonetic_parser(prog, e):
         r, f = apath(e)
         spx = f
     return bool(spx) and parser_fields(prog).get(spx[-1]) == "phonetic"
+
+
+APPEND_OPS = ("::push_str", "::push", "::insert", "::insert_str", "::extend", "::add_assign", "::write_str", "::write_fmt", "::write_char")
+RESET_OPS = ("String::clear",)
+
+
+def loop_carried_strings(b, loop_has):
+    """Strings appended to inside a loop (selected by loop_has(body blocks)) whose contents can survive into the next
+    iteration's appends.  Returns [(local, name, status, why, bb)] with status 'fresh' | 'reset' | 'exits' | 'carried'.
+
+    A String local counts when a `&mut local` is handed to an appending call inside the loop body.
+    fresh   : the local is (re)defined inside the loop body by an assignment that dominates the append;
+    reset   : every way round the back edge to another append passes a clear() of it;
+    exits   : no append can reach the loop header again (the loop is left after the first append);
+    carried : some append reaches, around the back edge and without a reset, an append of the next iteration."""
+    out = []
+    for h, tails in b.loops().items():
+        body = b.loop_body(h, tails)
+        if not loop_has(body):
+            continue
+        # &mut local temporaries
+        mutref = {}
+        for (i, j, s) in b.stmts():
+            if s["k"] == "assign" and not s["place"]["p"] and s["rv"]["k"] == "ref" and s["rv"].get("mut") in (True, "mut", "Mut") and not s["rv"]["place"]["p"] \
+                    and s["rv"]["place"]["ty"] == "std::string::String":
+                mutref[s["place"]["l"]] = s["rv"]["place"]["l"]
+        appends, resets = {}, {}
+        for x in body:
+            t = b.blocks[x]["term"]
+            if t["k"] != "call" or not t["args"] or t["args"][0]["k"] == "const" or t["args"][0]["place"]["p"]:
+                continue
+            L = mutref.get(t["args"][0]["place"]["l"])
+            if L is None:
+                continue
+            n = callee_name(t)
+            if any(n.endswith(o) for o in RESET_OPS):
+                resets.setdefault(L, set()).add(x)
+            elif any(n.endswith(o) for o in APPEND_OPS):
+                appends.setdefault(L, set()).add(x)
+        for L, apps in sorted(appends.items()):
+            name = b.local_name(L) if hasattr(b, "local_name") else "_%d" % L
+            rs = set(resets.get(L, set()))
+            # whole-local (re)definitions inside the loop body count as resets, too
+            for d in b.defs.get(L, []):
+                if d[0] in body and d[2] in ("assign", "call"):
+                    st = d[3]
+                    whole = (d[2] == "assign" and not st["place"]["p"]) or (d[2] == "call" and not st["dest"]["p"])
+                    if whole:
+                        rs.add(d[0])
+            status, why, at = None, None, None
+            for a in sorted(apps):
+                # nodes reachable from a (after it) inside the body without passing a reset
+                seen, work = set(), [y for y in b.bsucc[a] if y in body]
+                while work:
+                    y = work.pop()
+                    if y in seen or y in rs:
+                        continue
+                    seen.add(y)
+                    work.extend(z for z in b.bsucc[y] if z in body)
+                if h not in seen:
+                    continue
+                # went round the back edge without a reset: is an append reachable from the header without a reset?
+                seen2, work = set(), [h]
+                hit = None
+                while work:
+                    y = work.pop()
+                    if y in seen2 or y in rs:
+                        continue
+                    seen2.add(y)
+                    if y in apps:
+                        hit = y
+                        break
+                    work.extend(z for z in b.bsucc[y] if z in body)
+                if hit is not None:
+                    status, why, at = "carried", "what was appended in one iteration is still there when the next iteration appends", a
+                    break
+            if status is None:
+                fresh_defs = [d for d in b.defs.get(L, []) if d[0] in body]
+                if fresh_defs:
+                    status, why = "fresh", "(re)created inside the loop before it is appended to"
+                elif rs:
+                    status, why = "reset", "cleared before the next iteration appends"
+                else:
+                    status, why = "exits", "the loop is left after the first append"
+                at = sorted(apps)[0]
+            out.append((L, name, status, why, at))
+    return out
